@@ -13,14 +13,14 @@ CLAIMED = {
                 "graph, every interpretation of the function's own instructions and branch conditions, and every choice the pass makes (distinct non-zero dispatcher "
                 "keys, a false trash guard, a fresh phi variable), a fresh call returns or panics through the same instruction with the same program state, or diverges, "
                 "in the transformed function exactly when it does in the original (one general block-by-block simulation lemma instantiated per pass; composition by "
-                "induction over the pass list). The hypotheses are shown necessary (a zero key and a true trash guard are refuted). Also: dispatcher lookup, sequential "
+                "induction over the pass list). The hypotheses are shown necessary (a zero key and a true trash guard are refuted), and the two hardenings of the dispatcher keys are shown to keep them (xor: stored value = compared value, effective keys distinct and non-zero; delegate_table: stored value = key). Also: dispatcher lookup, sequential "
                 "phi lowering equals the parallel semantics when independent and is refuted for a swap (known finding F6), admissible trash guards are false. Tied to "
                 "the code on every run: the injected oracle builds SSA as garble does and runs the real passes stage by stage on a catalogue and on generated "
                 "structured functions; each dumped graph is read as ssa2ast reads it, the pass's parameters are read off its output and Coq evaluates "
                 "passes_okb && cfg_eqb (apply_passes ps g) real (theorem C11_passes_checked_instance then gives equivalence for that instance); on a mismatch both graphs "
                 "are executed inside Coq under trace interpretations to exhibit a differing execution. Plus a differential catalogue of 16 //garble:controlflow "
                 "functions under several parameter sets and seeds against the regular build. Partial: ssa2ast's instruction templates and its reading of a block graph, "
-                "and the hardening of dispatcher keys, are exercised, not proved.",
+                "and the Go code the hardenings emit, are exercised, not proved.",
         "note": "Trusted: Coq kernel; the oracle dump and its reading in checks/cf_graph.py; the differential catalogue samples functions, parameters and seeds. No axioms.",
         "technique": "Coq proof (simulation) that every control-flow pass and every pass sequence preserves and reflects runs + stage-by-stage graph correspondence with the real passes evaluated in Coq + differential execution",
     },
